@@ -38,6 +38,10 @@ type Gen struct {
 	Parts func(raw any, spe uint64) (signing.DomainName, eth2p0.Epoch, eth2p0.Root, error)
 	// SetSig writes the signature field of the raw object.
 	SetSig func(raw any, sig eth2p0.BLSSignature)
+	// Unwrap returns the raw eth2 object inside a core.SignedData of this family (nil if it is another type).
+	Unwrap func(sd core.SignedData) any
+	// VIdx returns a pointer to the validator index field the validator API resolves the validator by (nil: none).
+	VIdx func(raw any) *eth2p0.ValidatorIndex
 }
 
 func u64root(v uint64) eth2p0.Root {
@@ -126,6 +130,12 @@ func attGen(v eth2spec.DataVersion) Gen {
 				(*elatt(a)).Signature = sig
 			}
 		},
+		Unwrap: func(sd core.SignedData) any {
+			if x, ok := sd.(core.VersionedAttestation); ok {
+				return &x.VersionedAttestation
+			}
+			return nil
+		},
 	}
 }
 
@@ -204,6 +214,19 @@ func aggGen(v eth2spec.DataVersion) Gen {
 			} else {
 				(*elagg(a)).Signature = sig
 			}
+		},
+		Unwrap: func(sd core.SignedData) any {
+			if x, ok := sd.(core.VersionedSignedAggregateAndProof); ok {
+				return &x.VersionedSignedAggregateAndProof
+			}
+			return nil
+		},
+		VIdx: func(raw any) *eth2p0.ValidatorIndex {
+			a := raw.(*eth2spec.VersionedSignedAggregateAndProof)
+			if p := p0agg(a); p != nil {
+				return &(*p).Message.AggregatorIndex
+			}
+			return &(*elagg(a)).Message.AggregatorIndex
 		},
 	}
 }
@@ -293,6 +316,12 @@ func propGen(name string, blinded bool, mk func() core.VersionedSignedProposal) 
 		SetSig: func(raw any, sig eth2p0.BLSSignature) {
 			*propFields(raw.(*eth2api.VersionedSignedProposal)).sig = sig
 		},
+		Unwrap: func(sd core.SignedData) any {
+			if x, ok := sd.(core.VersionedSignedProposal); ok {
+				return &x.VersionedSignedProposal
+			}
+			return nil
+		},
 	}
 }
 
@@ -342,6 +371,13 @@ func Gens(legacy bool) []Gen {
 			return signing.DomainExit, e.Message.Epoch, r, err
 		},
 		SetSig: func(raw any, sig eth2p0.BLSSignature) { raw.(*eth2p0.SignedVoluntaryExit).Signature = sig },
+		Unwrap: func(sd core.SignedData) any {
+			if x, ok := sd.(core.SignedVoluntaryExit); ok {
+				return &x.SignedVoluntaryExit
+			}
+			return nil
+		},
+		VIdx: func(raw any) *eth2p0.ValidatorIndex { return &raw.(*eth2p0.SignedVoluntaryExit).Message.ValidatorIndex },
 	})
 	gs = append(gs, Gen{
 		Name: "builder_registration/v1", Duty: core.DutyBuilderRegistration,
@@ -362,6 +398,12 @@ func Gens(legacy bool) []Gen {
 		SetSig: func(raw any, sig eth2p0.BLSSignature) {
 			raw.(*eth2api.VersionedSignedValidatorRegistration).V1.Signature = sig
 		},
+		Unwrap: func(sd core.SignedData) any {
+			if x, ok := sd.(core.VersionedSignedValidatorRegistration); ok {
+				return &x.VersionedSignedValidatorRegistration
+			}
+			return nil
+		},
 	})
 	gs = append(gs, Gen{
 		Name: "randao", Duty: core.DutyRandao,
@@ -375,6 +417,12 @@ func Gens(legacy bool) []Gen {
 			return signing.DomainRandao, r.Epoch, u64root(uint64(r.Epoch)), nil
 		},
 		SetSig: func(raw any, sig eth2p0.BLSSignature) { raw.(*Randao).Signature = sig },
+		Unwrap: func(sd core.SignedData) any {
+			if x, ok := sd.(core.SignedRandao); ok {
+				return &x.SignedEpoch
+			}
+			return nil
+		},
 	})
 	gs = append(gs, Gen{
 		Name: "beacon_committee_selection", Duty: core.DutyPrepareAggregator,
@@ -394,6 +442,13 @@ func Gens(legacy bool) []Gen {
 			return signing.DomainSelectionProof, eth2p0.Epoch(uint64(s.Slot) / spe), u64root(uint64(s.Slot)), nil
 		},
 		SetSig: func(raw any, sig eth2p0.BLSSignature) { raw.(*eth2v1.BeaconCommitteeSelection).SelectionProof = sig },
+		Unwrap: func(sd core.SignedData) any {
+			if x, ok := sd.(core.BeaconCommitteeSelection); ok {
+				return &x.BeaconCommitteeSelection
+			}
+			return nil
+		},
+		VIdx: func(raw any) *eth2p0.ValidatorIndex { return &raw.(*eth2v1.BeaconCommitteeSelection).ValidatorIndex },
 	})
 	gs = append(gs, Gen{
 		Name: "sync_committee_selection", Duty: core.DutyPrepareSyncContribution,
@@ -415,6 +470,13 @@ func Gens(legacy bool) []Gen {
 			return signing.DomainSyncCommitteeSelectionProof, eth2p0.Epoch(uint64(s.Slot) / spe), r, err
 		},
 		SetSig: func(raw any, sig eth2p0.BLSSignature) { raw.(*eth2v1.SyncCommitteeSelection).SelectionProof = sig },
+		Unwrap: func(sd core.SignedData) any {
+			if x, ok := sd.(core.SyncCommitteeSelection); ok {
+				return &x.SyncCommitteeSelection
+			}
+			return nil
+		},
+		VIdx: func(raw any) *eth2p0.ValidatorIndex { return &raw.(*eth2v1.SyncCommitteeSelection).ValidatorIndex },
 	})
 	for _, v := range attVersions {
 		gs = append(gs, aggGen(v))
@@ -437,6 +499,13 @@ func Gens(legacy bool) []Gen {
 			return signing.DomainSyncCommittee, eth2p0.Epoch(uint64(m.Slot) / spe), m.BeaconBlockRoot, nil
 		},
 		SetSig: func(raw any, sig eth2p0.BLSSignature) { raw.(*altair.SyncCommitteeMessage).Signature = sig },
+		Unwrap: func(sd core.SignedData) any {
+			if x, ok := sd.(core.SignedSyncMessage); ok {
+				return &x.SyncCommitteeMessage
+			}
+			return nil
+		},
+		VIdx: func(raw any) *eth2p0.ValidatorIndex { return &raw.(*altair.SyncCommitteeMessage).ValidatorIndex },
 	})
 	gs = append(gs, Gen{
 		Name: "sync_contribution", Duty: core.DutySyncContribution,
@@ -458,6 +527,13 @@ func Gens(legacy bool) []Gen {
 			return signing.DomainContributionAndProof, eth2p0.Epoch(uint64(c.Message.Contribution.Slot) / spe), r, err
 		},
 		SetSig: func(raw any, sig eth2p0.BLSSignature) { raw.(*altair.SignedContributionAndProof).Signature = sig },
+		Unwrap: func(sd core.SignedData) any {
+			if x, ok := sd.(core.SignedSyncContributionAndProof); ok {
+				return &x.SignedContributionAndProof
+			}
+			return nil
+		},
+		VIdx: func(raw any) *eth2p0.ValidatorIndex { return &raw.(*altair.SignedContributionAndProof).Message.AggregatorIndex },
 	})
 	if legacy {
 		gs = append(gs, Gen{
@@ -480,6 +556,12 @@ func Gens(legacy bool) []Gen {
 				return signing.DomainAggregateAndProof, eth2p0.Epoch(uint64(a.Message.Aggregate.Data.Slot) / spe), r, err
 			},
 			SetSig: func(raw any, sig eth2p0.BLSSignature) { raw.(*eth2p0.SignedAggregateAndProof).Signature = sig },
+			Unwrap: func(sd core.SignedData) any {
+				if x, ok := sd.(core.SignedAggregateAndProof); ok {
+					return &x.SignedAggregateAndProof
+				}
+				return nil
+			},
 		})
 	}
 
